@@ -65,6 +65,10 @@ func c05Case(c *mon.Ctx, i int, record bool) {
 	var o *mon.Obj
 	var desc string
 	var isSeed bool
+	if sb := c05SingleBase(c); i >= sb {
+		c05Single(c, i, i-sb)
+		return
+	}
 	if base := len(W.Objs) + c.Pick(12000, 400000) + directedCount(c)/c.Pick(6, 1); i >= base+c05PairCases(c)+c05LongCases+c05CfgCases(c) {
 		c05CfgGenHistory(c, i-base-c05PairCases(c)-c05LongCases-c05CfgCases(c))
 		return
@@ -241,7 +245,6 @@ func stripClock(s mon.Snap) mon.Snap {
 const c05FreshEvery = 97
 
 func init() {
-	var nSeeds int
 	mon.Register(&mon.Check{
 		ID:          "C05",
 		Rule:        "evaluations = Lint*Ex calls; each case lints one object 4-8 times through the global registry (half of them on a fresh parse of the same bytes), interleaved with other objects, filtered registries and other configurations, and all per-lint (status, details) must be identical; exported fields of the parsed object are digested (reflection walk) before and after; a sample of cases is re-run alone in a fresh process and compared by result digest; the lint phase is traced with strace (syscall classification) and run with a std-library overlay that hooks time.Now / syscall.Getenv / syscall.Environ with caller attribution. distinct_nontrivial (de-duplicated by a hash of the DER bytes within each worker process) = distinct inputs with >= 1 lint beyond NA that went through the full repetition protocol.",
@@ -250,12 +253,11 @@ func init() {
 			if err := c05Setup(c); err != nil {
 				return err
 			}
-			nSeeds = len(W.Objs)
 			cfgWorkBuild(c)
 			return nil
 		},
 		Cases: func(c *mon.Ctx) int {
-			return nSeeds + c.Pick(12000, 400000) + directedCount(c)/c.Pick(6, 1) + c05PairCases(c) + c05LongCases + c05CfgCases(c) + c05CfgGenCases(c)
+			return c05SingleBase(c) + c05SingleCases(c)
 		},
 		RunCase: func(c *mon.Ctx, i int) { c05Case(c, i, c.Only >= 0 || i%c05FreshEvery == 0) },
 		Aux:     map[string]func(c *mon.Ctx){"io": c05IOAux, "env": c05EnvAux},
@@ -295,6 +297,13 @@ func c05Fresh(c *mon.Ctx, r *mon.Report, ev *mon.Evidence) []string {
 		idx = append(idx, i)
 	}
 	sort.Ints(idx)
+	// the pool-member class is compared completely, the rest by a strided sample
+	var members []int
+	if sb := c05SingleBase(c); len(idx) > 0 {
+		cut := sort.SearchInts(idx, sb)
+		members = append(members, idx[cut:]...)
+		idx = idx[:cut]
+	}
 	maxN := c.Pick(48, 400)
 	if len(idx) > maxN {
 		step := len(idx) / maxN
@@ -304,6 +313,8 @@ func c05Fresh(c *mon.Ctx, r *mon.Report, ev *mon.Evidence) []string {
 		}
 		idx = pick
 	}
+	idx = append(idx, members...)
+	ev.Coverage["fresh_process_pool_members"] = len(members)
 	exe, _ := os.Executable()
 	var mu sync.Mutex
 	var wg sync.WaitGroup
@@ -406,6 +417,57 @@ func c05Pair(c *mon.Ctx, k int) {
 		name := strings.SplitN(d, ":", 2)[0]
 		c.V("history-dependent|"+name, fmt.Sprintf("lint %s on %s gives a different result right after linting %s than on its own: %s", name, ob.Name, oa.Name, clipS(d, 300)), name, map[string][]byte{"first": oa.DER, "then": ob.DER}, nil)
 	}
+}
+
+// ---- first in its process vs. after its relatives ----
+//
+// An in-process comparison cannot see state that is filled by the FIRST relative and never reset (a memo keyed by a
+// folded / normalised form of a name, a table built from the first object): every later run of the subject, and the
+// baseline it is compared with, already sit behind that first relative. The only uncontaminated baseline is a process
+// in which the subject is the first thing linted. Family: the generated-pool family (one certificate per GeneralName
+// pool entry in three templates - among them names that differ only in case, Unicode form or encoding - AIA hosts,
+// adversarial DNs, name-constraint payloads). In-history side: a worker lints ALL members once (worker-specific
+// order), then records each member's result digest. Fresh side (Finish, c05Fresh): every member alone in a process of
+// its own (`-only`; no warm-up there). The digests must be equal.
+
+func c05SingleBase(c *mon.Ctx) int {
+	return len(W.Objs) + c.Pick(12000, 400000) + directedCount(c)/c.Pick(6, 1) + c05PairCases(c) + c05LongCases + c05CfgCases(c) + c05CfgGenCases(c)
+}
+
+func c05SingleCases(c *mon.Ctx) int {
+	if c.Thorough() {
+		return genPoolSize()
+	}
+	return len(gen.GNPool) * 3 // the GeneralName part
+}
+
+var c05SingleWarm sync.Once
+
+func c05Single(c *mon.Ctx, i, k int) {
+	g := lint.GlobalRegistry()
+	if c.Only < 0 {
+		c05SingleWarm.Do(func() {
+			n := c05SingleCases(c)
+			for j := 0; j < n; j++ {
+				if o, _ := genPoolCase((j*7919 + c.Shard*131) % n); o != nil {
+					_, _, _ = o.Lint(g)
+					c.R.Count("evaluations", 1)
+				}
+				c.Tick()
+			}
+		})
+	}
+	o, _ := genPoolCase(k)
+	if o == nil {
+		return
+	}
+	rs, pv, _ := o.Lint(g)
+	c.R.Count("evaluations", 1)
+	if pv != nil || rs == nil {
+		return
+	}
+	c.R.Count("pool_members_digested", 1)
+	c.R.Distinct("digest", fmt.Sprintf("%d=%s", i, mon.SnapDigest(stripClock(mon.SnapOf(rs)))))
 }
 
 // ---- long repetitions: behaviour that depends on how often something was called ----
